@@ -109,6 +109,60 @@ fn shelley_header_length_dispatch() {
     }
 }
 
+/// quick-tier cut of the dispatch harness: lengths 0..=33 (covers the 29-byte and 32-byte accept thresholds)
+#[kani::proof]
+#[kani::stub(alloc::fmt::format, stub_format)]
+#[kani::stub(ByronAddress::from_bytes, stub_byron_from_bytes)]
+#[kani::unwind(36)]
+fn shelley_header_length_dispatch_short() {
+    let header: u8 = kani::any();
+    let len: usize = kani::any();
+    let lenient: bool = kani::any();
+    kani::assume(len <= 33);
+    let mut buf = [0u8; 33];
+    if len > 0 { buf[0] = header; }
+    let data = &buf[..len];
+    let r = Address::from_bytes_internal_impl(data, lenient);
+    if len == 0 { assert!(r.is_err()); return; }
+    let k = expect_kind(header);
+    let net = header & 0x0F;
+    match r {
+        Ok(addr) => {
+            match &addr.0 {
+                AddrType::Base(_) => { assert!(false, "base address needs 57 bytes"); }
+                AddrType::Ptr(p) => {
+                    assert!(k == 4 || k == 5);
+                    assert!(len == 32 || (lenient && len > 32));
+                    assert!(p.network == net);
+                    assert!(matches!(p.payment.0, CredType::Script(_)) == (header & 0x10 != 0));
+                }
+                AddrType::Enterprise(e) => {
+                    assert!(k == 6 || k == 7);
+                    assert!(len == 29 || (lenient && len > 29));
+                    assert!(e.network == net);
+                    assert!(matches!(e.payment.0, CredType::Script(_)) == (header & 0x10 != 0));
+                }
+                AddrType::Reward(w) => {
+                    assert!(k == 14 || k == 15);
+                    assert!(len == 29 || (lenient && len > 29));
+                    assert!(w.network == net);
+                    assert!(matches!(w.payment.0, CredType::Script(_)) == (header & 0x10 != 0));
+                }
+                AddrType::Byron(_) => { assert!(false, "Byron arm is stubbed to fail"); }
+                AddrType::Malformed(_) => { assert!(false, "internal parser never yields Malformed"); }
+            }
+        }
+        Err(_) => {
+            let ok_len = match k {
+                4 | 5 => len == 32 || (lenient && len > 32),
+                6 | 7 | 14 | 15 => len == 29 || (lenient && len > 29),
+                _ => false,
+            };
+            assert!(!ok_len);
+        }
+    }
+}
+
 /// C11 family (ii-base): payload is copied verbatim into the credentials (base address, all 57 bytes symbolic)
 #[kani::proof]
 #[kani::stub(alloc::fmt::format, stub_format)]
